@@ -82,26 +82,39 @@ structure WfParts (I : IState) : Prop where
   cls : ∀ i, i < I.classes.length → I.wfCls i = true
   graph : ∀ i ∈ I.graph, i < I.classes.length
   meth : ∀ m ∈ allMethods I, I.wfMeth m = true
-  prefNodup : (I.staticNs.map (·.1)).Nodup
-  nsNodup : (I.staticNs.map (·.2)).Nodup
-  xs : ("xs", nsXsd) ∈ I.staticNs
-  tnsFresh : I.tns ∉ I.staticNs.map (·.2)
-  tnsPref : "tns" ∉ I.staticNs.map (·.1)
+  prefsInv : (Prefs.init I).Inv
+  knownXs : ∃ pf, (Prefs.init I).prefmap.lookup nsXsd = some pf
+  knownTns : ∃ pf, (Prefs.init I).prefmap.lookup I.tns = some pf
   imports : ∀ i ∈ I.graph, (I.cls i).kind = .builtin ∨ (I.cls i).ns ∈ I.imports.map (·.1)
   importsTns : I.tns ∈ I.imports.map (·.1)
   consistent : ∀ r1 ∈ I.requests, ∀ r2 ∈ I.requests, r1.1 = r2.1 → partsOf I r1.2 = partsOf I r2.2
   faultTns : ∀ m ∈ allMethods I, ∀ f ∈ m.faults, (I.cls f).ns = I.tns
 
 theorem wf_unpack (I : IState) (h : I.wf = true) : WfParts I := by
-  simp only [IState.wf, IState.wfCore, IState.faultsTns, Bool.and_eq_true, decide_eq_true_eq, List.all_eq_true,
-    Bool.not_eq_true', List.contains_eq_mem, decide_eq_false_iff_not, List.mem_range, Bool.or_eq_true, beq_iff_eq,
-    bne_iff_ne, ne_eq] at h
-  obtain ⟨⟨⟨⟨⟨⟨⟨⟨⟨⟨⟨h1, h2⟩, h3⟩, h4⟩, h5⟩, h6⟩, h7⟩, h8⟩, h9⟩, h10⟩, h11⟩, h12⟩ := h
-  refine ⟨h1, h2, h3, h4, h5, by simpa using h6, h7, h8, h9, h10, ?_, h12⟩
-  intro r1 hr1 r2 hr2 he
-  rcases h11 r1 hr1 r2 hr2 with h | h
-  · exact absurd he h
-  · exact h
+  simp only [IState.wf, IState.wfCore, Bool.and_eq_true] at h
+  obtain ⟨⟨⟨⟨⟨⟨⟨⟨⟨h1, h2⟩, h3⟩, hp⟩, hx⟩, ht⟩, h9⟩, h10⟩, h11⟩, h12⟩ := h
+  refine ⟨?_, ?_, ?_, ⟨?_⟩, ?_, ?_, ?_, ?_, ?_, ?_⟩
+  · simpa [List.all_eq_true] using h1
+  · simpa [List.all_eq_true] using h2
+  · simpa [List.all_eq_true] using h3
+  · intro ns pf hl
+    have hm : ns ∈ (Prefs.init I).prefmap.map (·.1) := List.mem_map.mpr ⟨(ns, pf), lookup_mem _ _ _ hl, rfl⟩
+    have := (List.all_eq_true.mp hp) ns hm
+    rw [hl] at this
+    simpa using this
+  · exact Option.isSome_iff_exists.mp hx
+  · exact Option.isSome_iff_exists.mp ht
+  · intro i hi
+    have := (List.all_eq_true.mp h9) i hi
+    simpa using this
+  · simpa using h10
+  · intro r1 hr1 r2 hr2 he
+    have := (List.all_eq_true.mp ((List.all_eq_true.mp h11) r1 hr1)) r2 hr2
+    simp only [Bool.or_eq_true, bne_iff_ne, ne_eq, beq_iff_eq] at this
+    rcases this with h | h
+    · exact absurd he h
+    · exact h
+  · simpa [IState.faultsTns, List.all_eq_true] using h12
 
 structure MethParts (I : IState) (m : Meth) : Prop where
   inNs : (I.cls m.inMsg).elemNs I.tns = I.tns
@@ -121,15 +134,13 @@ theorem wfMeth_unpack (I : IState) (m : Meth) (h : I.wfMeth m = true) : MethPart
 theorem declared_tns (I : IState) (hw : WfParts I) (tr rest : List String) (x : String) :
     Doc.declared ⟨(touchAll (Prefs.init I) tr).nsmap, (touchAll (touchAll (Prefs.init I) tr) rest).prefmap,
       I.tns, I.name, [], [], [], [], []⟩ ⟨I.tns, x⟩ = true := by
-  have hinv := init_inv I hw.prefNodup hw.tnsFresh hw.tnsPref
-  obtain ⟨pf, h1, h2⟩ := declared_of_known (Prefs.init I) hinv tr rest I.tns (Or.inl ⟨_, init_tns I hw.tnsFresh⟩)
+  obtain ⟨pf, h1, h2⟩ := declared_of_known (Prefs.init I) hw.prefsInv tr rest I.tns (Or.inl hw.knownTns)
   simp [Doc.declared, h1, h2]
 
 theorem tns_lookup (I : IState) (hw : WfParts I) (tr rest : List String) :
     ∃ pf, (touchAll (touchAll (Prefs.init I) tr) rest).prefmap.lookup I.tns = some pf ∧
       (touchAll (Prefs.init I) tr).nsmap.lookup pf = some I.tns :=
-  declared_of_known (Prefs.init I) (init_inv I hw.prefNodup hw.tnsFresh hw.tnsPref) tr rest I.tns
-    (Or.inl ⟨_, init_tns I hw.tnsFresh⟩)
+  declared_of_known (Prefs.init I) hw.prefsInv tr rest I.tns (Or.inl hw.knownTns)
 
 theorem mem_mnames_any (ms : List Msg) (x : String) (h : x ∈ ms.map (·.name)) : ms.any (fun m => m.name == x) = true := by
   obtain ⟨m, hm, rfl⟩ := List.mem_map.mp h
